@@ -242,7 +242,7 @@ fn run_case(args: &Args, run: u64, seed: u64, w: &mut CaseWriter, jsonl: &mut st
     }
     // watchdog
     let mut finished = 0;
-    let deadline = std::time::Instant::now() + Duration::from_secs(args.get_u64("watchdog", 90));
+    let deadline = std::time::Instant::now() + Duration::from_secs(args.get_u64("watchdog", 240));
     while finished < n_workers {
         match rx.recv_timeout(deadline.saturating_duration_since(std::time::Instant::now())) { Ok(x) if x < 1000 => finished += 1, Ok(_) => {}, Err(_) => break }
     }
@@ -250,7 +250,7 @@ fn run_case(args: &Args, run: u64, seed: u64, w: &mut CaseWriter, jsonl: &mut st
     let mut completed = finished == n_workers;
     if completed {
         // the stand-in must come back as well
-        let deadline2 = std::time::Instant::now() + Duration::from_secs(30);
+        let deadline2 = std::time::Instant::now() + Duration::from_secs(args.get_u64("watchdog", 240));
         loop { match rx.recv_timeout(deadline2.saturating_duration_since(std::time::Instant::now())) { Ok(1000) => break, Ok(_) => {}, Err(_) => { completed = false; break } } }
     }
     rec.on.store(false, Ordering::Relaxed);
@@ -503,7 +503,7 @@ fn run_case(args: &Args, run: u64, seed: u64, w: &mut CaseWriter, jsonl: &mut st
     for (k, v) in kinds { *stats.entry(k).or_default() += v; }
     distinct.insert(format!("{}|{}|{}", n_workers, lock_events.len(), trace.len()));
     if samples.len() < 3 { samples.push(rec_json.clone()); }
-    if !completed { impl_failures.push(json!({"index": w.total, "class": {"deadlock_or_timeout": true}, "what": format!("run {run}: {} of {} workers did not finish within the watchdog limit", n_workers - finished, n_workers)})); }
+    if !completed { impl_failures.push(json!({"index": w.total, "class": {"deadlock_or_timeout": true}, "what": if finished == n_workers { format!("run {run}: all {n_workers} workers finished, the scheduler stand-in did not return within the watchdog limit") } else { format!("run {run}: {} of {} workers did not finish within the watchdog limit", n_workers - finished, n_workers) }})); }
     w.push(term);
     if completed { drop(sys); let _ = std::fs::remove_dir_all(&dir); }
 }
